@@ -348,13 +348,16 @@ class C13(Check):
         from .analysis_kit import ProjectKit
         from .invariance import AnalysisInvariance
         from . import designs as DS
-        if not hasattr(self, 'pkit'): self.pkit = ProjectKit(self, log=self.log)
+        if not hasattr(self, 'pkit'): self.pkit = ProjectKit(self, libs=('lib0', 'lib1', 'lib2', 'ieee'), third_party=('ieee',), log=self.log)
         q = self.tier == 'quick'
         ds = [DS.MUT_DESIGN, DS.D_SEM] + ([] if q else [DS.D_COMB])
         ps.append(AnalysisInvariance('analysis: letter case of one identifier or keyword', ds, 'case', stride=12 if q else 1, offset=self.seed % 12 if q else 0,
                                      required=('compared', 'diagnostics present', 'quoted name re-spelled')))
         ps.append(AnalysisInvariance('analysis: re-layout at one gap between tokens', ds, 'layout', stride=24 if q else 1, offset=self.seed % 24 if q else 0,
                                      required=('compared', 'diagnostics present', 'line break inserted')))
+        if not q:
+            from .. import build as _b
+            ps.append(AnalysisInvariance('analysis: letter case of the declared type names of ieee.std_logic_1164', [DS.ieee_design(_b.REPO)], 'case', required=('compared',)))
         self._parts = ps
         return ps
 
